@@ -25,6 +25,9 @@ func runC09(c *Ctx) {
 	recoveryErrors(c, "R2")
 	c.Rule("R6", "transferred batches are written through the write-ahead log (durable, and transferable again)", 1)
 	walNeverDisabled(c, "R6")
+	c.Rule("R7", "the transfer is always requested, always streamed from the store, and the per-batch callback's refusal ends it", 3)
+	restoreAlwaysTransfers(c, "R7")
+	transferCallbackErrorPropagates(c, "R7")
 	fsmValidate(c, "R3")
 	p := c.P
 	// the writer by role, exactly as the apply rules resolve it
